@@ -402,8 +402,9 @@ class Producer(object):
             topicPart = TopicAndPartition(topic, partition)
             payloads.append(req)
             payloadsByTopicPart[topicPart] = req
-        # Make sure we have some payloads to send
-        if not payloads:
+        # Make sure we have some payloads to send (and that a callback of one of
+        # the deferreds failed above did not call stop() meanwhile)
+        if not payloads or self.stopping:
             return
         # send the request
         d = self.client.send_produce_request(
